@@ -419,7 +419,21 @@ def apiReadN (dir : Dir) (s : Sess) (n : Nat) (sb eb : Bound) : R (List Entry) :
     | .ok es => pure es
     | .error f => .error (wrapErr "Reading" f)
 
-/-- the paging loop of examples/read.rs as run by the harness -/
+/-- the paging loop of examples/read.rs as run by the harness: `.error` carries the text
+printed when the loop ends in a fault -/
+def pageLoop (dir : Dir) (s : Sess) (n : Nat) : Nat → Nat → List Entry → Except String (List Entry)
+  | 0, _, acc => .error ("err Loop " ++ fmtEntries acc)
+  | fuel+1, readStart, acc =>
+    match apiReadFirstN dir s n (.incl readStart) .unb with
+    | .error f =>
+      if f = .err "InvalidRange/StartAfterData" then .ok acc else .error (fmtFault f)
+    | .ok [] => .ok acc
+    | .ok (x :: rest) =>
+      let acc := acc ++ x :: rest
+      match acc.getLast? with
+      | none => .ok acc
+      | some l => if l.ts + 1 < 2^64 then pageLoop dir s n fuel (l.ts + 1) acc else .ok acc
+
 def apiPage (dir : Dir) (s : Sess) (n : Nat) : String :=
   match s.range with
   | none => "ok -"
@@ -427,20 +441,9 @@ def apiPage (dir : Dir) (s : Sess) (n : Nat) : String :=
     match dataLenLines s.d with
     | .error _ => "panic"
     | .ok len =>
-      let rec loop (fuel : Nat) (readStart : Nat) (acc : List Entry) : String :=
-        match fuel with
-        | 0 => "err Loop " ++ fmtEntries acc
-        | fuel+1 =>
-          match apiReadFirstN dir s n (.incl readStart) .unb with
-          | .error (.err "InvalidRange/StartAfterData") => fmtEntries acc
-          | .error f => fmtFault f
-          | .ok [] => fmtEntries acc
-          | .ok es =>
-            let acc := acc ++ es
-            match acc.getLast? with
-            | none => fmtEntries acc
-            | some l => if l.ts + 1 < 2^64 then loop fuel (l.ts + 1) acc else fmtEntries acc
-      loop (len + 3) first []
+      match pageLoop dir s n (len + 3) first [] with
+      | .ok es => fmtEntries es
+      | .error t => t
 
 def withSess (w : World) (f : Dir → Sess → World × String) : World × String :=
   match w.sess with
